@@ -189,7 +189,7 @@ package bufiox
 
 //@ func DefaultReader.acquireSlow
 //@   arith int
-//@   props C01, C02, C03, C04, C08, C09, C10, C12, C16, C17
+//@   props C01, C02, C03, C04, C06, C08, C09, C10, C12, C16, C17
 //@   requires drInv(r) && rdPool(r) && 0 <= n && n <= 0x400000000000 && n > len(r.buf) - r.ri
 //@   let U = drU(r)
 //@   ensures drInv(r) && rdPool(r) && same(drU(r), U) && r.ri == old(r.ri)
@@ -208,7 +208,7 @@ package bufiox
 
 //@ func DefaultReader.acquire
 //@   arith int
-//@   props C01, C02, C03, C04, C08, C09, C10, C12, C16, C17
+//@   props C01, C02, C03, C04, C06, C08, C09, C10, C12, C16, C17
 //@   requires drInv(r) && rdPool(r) && 0 <= n && n <= 0x400000000000
 //@   let U = drU(r)
 //@   ensures drInv(r) && rdPool(r) && same(drU(r), U) && r.ri == old(r.ri)
@@ -220,7 +220,7 @@ package bufiox
 
 //@ func DefaultReader.Next
 //@   arith int
-//@   props C01, C02, C03, C04, C08, C09, C10, C12, C16, C17
+//@   props C01, C02, C03, C04, C06, C08, C09, C10, C12, C16, C17
 //@   refines Reader.Next
 //@   requires drInv(r) && rdPool(r) && n <= 0x400000000000
 //@   ensures drInv(r) && rdPool(r) && n <= 0x400000000000
@@ -229,7 +229,7 @@ package bufiox
 
 //@ func DefaultReader.Peek
 //@   arith int
-//@   props C01, C02, C03, C04, C08, C09, C10, C12, C16, C17
+//@   props C01, C02, C03, C04, C06, C08, C09, C10, C12, C16, C17
 //@   refines Reader.Peek
 //@   requires drInv(r) && rdPool(r) && n <= 0x400000000000
 //@   ensures drInv(r) && rdPool(r) && n <= 0x400000000000
@@ -237,7 +237,7 @@ package bufiox
 
 //@ func DefaultReader.Skip
 //@   arith int
-//@   props C01, C02, C03, C04, C08, C09, C10, C12, C16, C17
+//@   props C01, C02, C03, C04, C06, C08, C09, C10, C12, C16, C17
 //@   refines Reader.Skip
 //@   requires drInv(r) && rdPool(r) && n <= 0x400000000000
 //@   ensures drInv(r) && rdPool(r) && n <= 0x400000000000
@@ -245,13 +245,13 @@ package bufiox
 
 //@ func DefaultReader.ReadLen
 //@   arith int
-//@   props C01, C02, C03, C04, C08, C10, C12, C16, C17
+//@   props C01, C02, C03, C04, C06, C08, C10, C12, C16, C17
 //@   refines Reader.ReadLen
 //@   ensures n == r.ri
 
 //@ func DefaultReader.ReadBinary
 //@   arith int
-//@   props C01, C02, C03, C04, C08, C09, C10, C12, C16, C17
+//@   props C01, C02, C03, C04, C06, C08, C09, C10, C12, C16, C17
 //@   refines Reader.ReadBinary
 //@   requires drInv(r) && rdPool(r) && region(bs) != region(r.buf) && len(bs) <= 0x400000000000
 //@   ensures drInv(r) && rdPool(r) && region(bs) != region(r.buf) && len(bs) <= 0x400000000000
@@ -259,7 +259,7 @@ package bufiox
 
 //@ func DefaultReader.Release
 //@   arith int
-//@   props C01, C02, C03, C04, C08, C09, C10, C12, C16, C17
+//@   props C01, C02, C03, C04, C06, C08, C09, C10, C12, C16, C17
 //@   refines Reader.Release
 //@   requires drInv(r) && rdPool(r)
 //@   ensures drInv(r) && rdPool(r)
@@ -279,14 +279,14 @@ package bufiox
 
 //@ func fakeIOReader.Read
 //@   arith int
-//@   props C01, C02, C03, C04, C08, C09, C10, C12, C16, C17
+//@   props C01, C02, C03, C04, C06, C08, C09, C10, C12, C16, C17
 //@   refines io.Reader.Read
 //@   ensures n == 0 && err == io.EOF
 //@   assigns \nothing
 
 //@ func NewDefaultReader
 //@   arith int
-//@   props C01, C02, C03, C04, C08, C10, C12, C16, C17
+//@   props C01, C02, C03, C04, C06, C08, C10, C12, C16, C17
 //@   requires !isnil(rd)
 //@   ensures fresh(ret) && drInv(ret) && rdPool(ret) && same(ret.rd, rd) && ret.ri == 0 && isnil(ret.buf) && isnil(ret.err)
 
@@ -295,7 +295,7 @@ package bufiox
 // bytes is a choice of ghost state at construction: the eqbytes conjunct of drInv is trusted.
 //@ func NewBytesReader
 //@   arith int
-//@   props C01, C02, C03, C04, C08, C09, C10, C12, C16, C17
+//@   props C01, C02, C03, C04, C06, C08, C09, C10, C12, C16, C17
 //@   ensures fresh(ret) && ret.ri == 0 && (cap(buf) > 0 ==> same(ret.buf, buf) && ret.bufReadOnly) && (cap(buf) == 0 ==> isnil(ret.buf)) && isnil(ret.err) && !isnil(ret.rd) && len(ret.rd.$f) == 0
 //@   ensures rdPool(ret) && isnil(ret.pendingBuf) && istype(ret.rd, fakeIOReader) && fresh(ret.rd)
 //@   ensures[trusted] drInv(ret)
